@@ -16,7 +16,7 @@ if [ "$REPO" != /repo ]; then
   cp "$REPO/go.sum" "$BASE/.work/go.alt.sum"
   MODFLAG="-modfile=$BASE/.work/go.alt.mod"
 fi
-RACE_PROPS=" C07 C12 C15 C16 "
+RACE_PROPS=" C07 C12 C15 C16 C17 "
 CHECKPTR_PROPS=" C03 C18 "
 build() { # $1 = plain|race
   if [ "$1" = race ]; then
